@@ -462,3 +462,127 @@ Proof.
   rewrite <- (app_nil_r (enc t)) at 2.
   apply deser_enc; [exact Hw|lia|lia|lia].
 Qed.
+
+(** * Deserialize is total: the fuel [deserialize] supplies is never exhausted *)
+Lemma nv_take_shorter n b x r : nv_take n b = Some (x, r) -> (length r <= length b)%nat /\ length b = (length x + length r)%nat.
+Proof. intro E. apply nv_take_some in E. destruct E as [-> _]. rewrite app_length. lia. Qed.
+
+Lemma nv_next_varuint_shorter b v irr r : nv_next_varuint b = Some (v, irr, r) -> (length r < length b)%nat.
+Proof.
+  destruct b as [|fb b]; [discriminate|]. cbn [nv_next_varuint length].
+  destruct (fb =? 253); [|destruct (fb =? 254); [|destruct (fb =? 255)]].
+  - destruct (nv_take (N.of_nat 2) b) as [[x r']|] eqn:E; [|discriminate]. intro H. injection H as _ _ <-.
+    apply nv_take_shorter in E. lia.
+  - destruct (nv_take (N.of_nat 4) b) as [[x r']|] eqn:E; [|discriminate]. intro H. injection H as _ _ <-.
+    apply nv_take_shorter in E. lia.
+  - destruct (nv_take (N.of_nat 8) b) as [[x r']|] eqn:E; [|discriminate]. intro H. injection H as _ _ <-.
+    apply nv_take_shorter in E. lia.
+  - intro H. injection H as _ _ <-. lia.
+Qed.
+
+Lemma nv_next_varbytes_shorter b d irr r : nv_next_varbytes b = (d, irr, false, r) -> (length r < length b)%nat.
+Proof.
+  unfold nv_next_varbytes. destruct (nv_next_varuint b) as [[[c i] r0]|] eqn:E; [|discriminate].
+  apply nv_next_varuint_shorter in E.
+  destruct (0 <? c).
+  - destruct (nv_take c r0) as [[x r']|] eqn:Et; [|discriminate]. intro H. injection H as _ _ <-.
+    apply nv_take_shorter in Et. lia.
+  - intro H. injection H as _ _ <-. exact E.
+Qed.
+
+Lemma deser_nil f d : deser (S f) d [] = if (max_count <? d)%nat then DErr DDepth else DErr DEof.
+Proof. reflexivity. Qed.
+
+Lemma deser_consumes : forall f,
+  (forall d b t r, deser f d b = DOk (t, r) -> (length r < length b)%nat) /\
+  (forall limit d n acc b l r, deser_items f limit d n acc b = DOk (l, r) -> (length r <= length b)%nat) /\
+  (forall d n m b m' r, deser_entries f d n m b = DOk (m', r) -> (length r <= length b)%nat).
+Proof.
+  induction f as [|f [IH1 [IH2 IH3]]].
+  - repeat split.
+    + discriminate.
+    + intros limit d n acc b l r. rewrite deser_items_unfold. destruct (n =? 0); [|discriminate]. intro H. injection H as _ <-. lia.
+    + intros d n m b m' r. rewrite deser_entries_unfold. destruct (n =? 0); [|discriminate]. intro H. injection H as _ <-. lia.
+  - repeat split.
+    + intros d b t r. destruct b as [|tag b]; [rewrite deser_nil; destruct (max_count <? d)%nat; discriminate|].
+      rewrite deser_unfold. destruct (max_count <? d)%nat; [discriminate|].
+      destruct (tag =? T_BOOL).
+      { destruct b as [|x b]; [discriminate|]. destruct (x =? 0); [|destruct (x =? 1)]; intro H; try discriminate; injection H as _ <-; cbn [length]; lia. }
+      destruct (tag =? T_BYTEARRAY).
+      { destruct (nv_next_varbytes b) as [[[data irr] eof] r'] eqn:E. destruct eof; [discriminate|]. destruct irr; [discriminate|].
+        destruct (max_item_size <? _); [discriminate|]. intro H. injection H as _ <-. apply nv_next_varbytes_shorter in E. cbn [length]. lia. }
+      destruct (tag =? T_INTEGER).
+      { destruct (nv_next_varbytes b) as [[[data irr] eof] r'] eqn:E. destruct eof; [discriminate|]. destruct irr; [discriminate|].
+        cbv zeta. destruct (max_int_size <? _)%nat; [discriminate|]. intro H. injection H as _ <-. apply nv_next_varbytes_shorter in E. cbn [length]. lia. }
+      destruct (tag =? T_ARRAY).
+      { destruct (nv_next_varuint b) as [[[l irr] r']|] eqn:E; [|discriminate]. destruct irr; [discriminate|].
+        destruct (deser_items f _ _ _ _ _) as [[items r'']| |] eqn:E2; try discriminate. intro H. injection H as _ <-.
+        apply nv_next_varuint_shorter in E. apply IH2 in E2. cbn [length]. lia. }
+      destruct (tag =? T_MAP).
+      { destruct (nv_next_varuint b) as [[[l irr] r']|] eqn:E; [|discriminate]. destruct irr; [discriminate|].
+        destruct (deser_entries f _ _ _ _) as [[items r'']| |] eqn:E2; try discriminate. intro H. injection H as _ <-.
+        apply nv_next_varuint_shorter in E. apply IH3 in E2. cbn [length]. lia. }
+      destruct (tag =? T_STRUCT).
+      { destruct (nv_next_varuint b) as [[[l irr] r']|] eqn:E; [|discriminate]. destruct irr; [discriminate|].
+        destruct (deser_items f _ _ _ _ _) as [[items r'']| |] eqn:E2; try discriminate. intro H. injection H as _ <-.
+        apply nv_next_varuint_shorter in E. apply IH2 in E2. cbn [length]. lia. }
+      discriminate.
+    + intros limit d n acc b l r. rewrite deser_items_unfold. destruct (n =? 0); [intro H; injection H as _ <-; lia|].
+      destruct (deser f d b) as [[v r0]| |] eqn:E; try discriminate. destruct (limit <=? length acc)%nat; [discriminate|].
+      intro H. apply IH1 in E. apply IH2 in H. lia.
+    + intros d n m b m' r. rewrite deser_entries_unfold. destruct (n =? 0); [intro H; injection H as _ <-; lia|].
+      destruct (deser f d b) as [[k r0]| |] eqn:E; try discriminate.
+      destruct (deser f d r0) as [[v r1]| |] eqn:E1; try discriminate.
+      destruct k; try discriminate. intro H. apply IH1 in E. apply IH1 in E1. apply IH3 in H. lia.
+Qed.
+
+Lemma deser_fuel_enough : forall f,
+  (forall d b, (2 * length b + 1 <= f)%nat -> deser f d b <> DOof) /\
+  (forall limit d n acc b, (2 * length b + 2 <= f)%nat -> deser_items f limit d n acc b <> DOof) /\
+  (forall d n m b, (2 * length b + 2 <= f)%nat -> deser_entries f d n m b <> DOof).
+Proof.
+  induction f as [|f [IH1 [IH2 IH3]]].
+  - repeat split; intros; lia.
+  - destruct (deser_consumes f) as [C1 [C2 C3]]. repeat split.
+    + intros d b Hf. destruct b as [|tag b]; [rewrite deser_nil; destruct (max_count <? d)%nat; discriminate|].
+      cbn [length] in Hf. rewrite deser_unfold. destruct (max_count <? d)%nat; [discriminate|].
+      destruct (tag =? T_BOOL).
+      { destruct b as [|x b]; [discriminate|]. destruct (x =? 0); [|destruct (x =? 1)]; discriminate. }
+      destruct (tag =? T_BYTEARRAY).
+      { destruct (nv_next_varbytes b) as [[[data irr] eof] r'] eqn:E. destruct eof; [discriminate|]. destruct irr; [discriminate|].
+        destruct (max_item_size <? _); discriminate. }
+      destruct (tag =? T_INTEGER).
+      { destruct (nv_next_varbytes b) as [[[data irr] eof] r'] eqn:E. destruct eof; [discriminate|]. destruct irr; [discriminate|].
+        cbv zeta. destruct (max_int_size <? _)%nat; discriminate. }
+      destruct (tag =? T_ARRAY).
+      { destruct (nv_next_varuint b) as [[[l irr] r']|] eqn:E; [|discriminate]. destruct irr; [discriminate|].
+        apply nv_next_varuint_shorter in E.
+        destruct (deser_items f _ _ _ _ _) as [[items r'']| |] eqn:E2; try discriminate. exfalso. revert E2. apply IH2. lia. }
+      destruct (tag =? T_MAP).
+      { destruct (nv_next_varuint b) as [[[l irr] r']|] eqn:E; [|discriminate]. destruct irr; [discriminate|].
+        apply nv_next_varuint_shorter in E.
+        destruct (deser_entries f _ _ _ _) as [[items r'']| |] eqn:E2; try discriminate. exfalso. revert E2. apply IH3. lia. }
+      destruct (tag =? T_STRUCT).
+      { destruct (nv_next_varuint b) as [[[l irr] r']|] eqn:E; [|discriminate]. destruct irr; [discriminate|].
+        apply nv_next_varuint_shorter in E.
+        destruct (deser_items f _ _ _ _ _) as [[items r'']| |] eqn:E2; try discriminate. exfalso. revert E2. apply IH2. lia. }
+      discriminate.
+    + intros limit d n acc b Hf. rewrite deser_items_unfold. destruct (n =? 0); [discriminate|].
+      destruct (deser f d b) as [[v r0]| |] eqn:E; try discriminate.
+      * destruct (limit <=? length acc)%nat; [discriminate|]. apply C1 in E. apply IH2. lia.
+      * exfalso. revert E. apply IH1. lia.
+    + intros d n m b Hf. rewrite deser_entries_unfold. destruct (n =? 0); [discriminate|].
+      destruct (deser f d b) as [[k r0]| |] eqn:E; try discriminate.
+      * pose proof (C1 _ _ _ _ E) as L1.
+        destruct (deser f d r0) as [[v r1]| |] eqn:E1; try discriminate.
+        -- pose proof (C1 _ _ _ _ E1) as L2. destruct k; try discriminate. apply IH3. lia.
+        -- exfalso. revert E1. apply IH1. lia.
+      * exfalso. revert E. apply IH1. lia.
+Qed.
+
+Theorem deser_total b : deserialize b <> DOof.
+Proof. unfold deserialize, deser_fuel. apply (proj1 (deser_fuel_enough _)). lia. Qed.
+
+(** what is accepted was read from within the input: the unread rest is a proper suffix length-wise *)
+Theorem deser_in_bounds b t r : deserialize b = DOk (t, r) -> (length r < length b)%nat.
+Proof. apply (proj1 (deser_consumes _)). Qed.
